@@ -11,7 +11,7 @@ import numpy
 from . import model as M
 
 SUB_UNITS = ['umol', 'mmol', 'mol', 'nmol', 'mg', 'g', 'ug', 'uL', 'mL', 'L']
-ENZ_UNITS = ['U', 'mg', 'g', 'uL', 'mL']
+ENZ_UNITS = ['U', 'U', 'mU', 'kU', 'mg', 'g', 'uL', 'mL']
 FLOW_UNITS = ['uL', 'mL', 'L', 'mg', 'g', 'umol', 'mmol', 'U']
 
 
@@ -457,6 +457,14 @@ def check_discarded(run, rng):
                           f"{float(expv):.9g} {uu}, got {o3[1]!r}", kid)
                 else:
                     run.stats['probe:discard_reported'] += 1
+            # with no destination at all: what was discarded is all there is ("the trash is always a destination")
+            o4 = run.call(lambda: R.get_substance_used(W.rsubs[sname], timeframe=tf, unit=uu, destinations=[]))
+            expv = amt * ms.per_amount(base) / mult
+            tol = round_tol(u.precision(uu)) + 16 * W.q_amt(sname) * n_wells(run.snap[i].get(name)) / mult + expv * F(1, 10 ** 10)
+            if o4[0] != 'ok' or abs(F(float(o4[1])) - expv) > tol:
+                run.V('C17', 'discard_not_tracked', ('remove', 'substance_used', 'no-destination'),
+                      f"stage {tf!r} = remove({name}, ...) only: usage of {sname} with an empty destination list should be the discarded "
+                      f"{float(expv):.9g} {uu}, got {o4[1]!r}", kid)
             o2 = run.call(lambda: R.get_container_flows(obj, timeframe=tf, unit=uu))
             if o2[0] == 'ok' and isinstance(o2[1], dict):
                 got = numpy.asarray(o2[1]['out'], dtype=float)
@@ -497,6 +505,18 @@ def gen_queries(run, rng, n):
 
 
 def do_query(run, c):
+    if c['c'] == 'q_pre':
+        # the user looks at the tracking functions while still writing the recipe; whatever they answer now, the answers
+        # after bake are judged as usual (the same questions are asked again then)
+        W, R = run.W, run.recipe
+        obj = run.handles.get(c['obj'])
+        if obj is not None and run.baked is None:
+            run.call(lambda: R.get_container_flows(obj, timeframe=c['tf'], unit=c['unit']))
+            run.call(lambda: R.get_amount_remaining(obj, timeframe=c['tf'], unit=c['unit']))
+            sname = sorted(W.msubs)[0]
+            run.call(lambda: R.get_substance_used(W.rsubs[sname], timeframe=c['tf']))
+            run.stats['probe:tracking_asked_before_bake'] += 1
+        return
     if run.baked is None:
         return
     if not run.eager_ok:
